@@ -209,3 +209,35 @@ Proof.
     - injection E1 as <-. cbn; lia. }
   specialize (H cmds bs Hc He). lia.
 Qed.
+
+(* lossless or error, over the full Go domain, with the one explicit exception *)
+Theorem lossless_or_error : forall v,
+  wf_go v = true ->
+  enc v = Err \/
+  (exists bs, enc v = Ok bs /\ dec (kind_of v) bs = Ok (wire_resolution v)) \/
+  newch_ambiguous v = true.
+Proof.
+  intros v Hwf. destruct (newch_ambiguous v) eqn:Ha; [right; right; reflexivity|].
+  destruct (enc v) as [bs| | |] eqn:E.
+  - right. left. exists bs. split; [reflexivity|]. exact (roundtrip v bs Hwf E Ha).
+  - left. reflexivity.
+  - exfalso. destruct v; cbn [enc enc_redundancy enc_dlsettings enc_version] in E;
+      unfold enc_redundancy, enc_dlsettings, enc_version in E;
+      repeat match type of E with
+             | (if ?c then _ else _) = _ => destruct c
+             | bind (if ?c then _ else _) _ = _ => destruct c; cbn [bind] in E
+             end; discriminate.
+  - exfalso. destruct v; cbn [enc enc_redundancy enc_dlsettings enc_version] in E;
+      unfold enc_redundancy, enc_dlsettings, enc_version in E;
+      repeat match type of E with
+             | (if ?c then _ else _) = _ => destruct c
+             | bind (if ?c then _ else _) _ = _ => destruct c; cbn [bind] in E
+             end; discriminate.
+Qed.
+
+Theorem newchannel_refuted :
+  exists v bs, wf_go v = true /\ enc v = Ok bs /\ dec (kind_of v) bs <> Ok (wire_resolution v).
+Proof.
+  exists (PNewChannelReq 3 1300000000 5 0), [3; 0x40; 0x5d; 0xc6; 0x50].
+  split; [reflexivity|]. split; [vm_compute; reflexivity|]. vm_compute. discriminate.
+Qed.
